@@ -92,13 +92,12 @@ inductive CClass
   | single (tt : TT) | bang | eq | lt | gt | slash | backslash | blank | newline | quote | digit | alnum | other
 deriving DecidableEq, Repr
 
-def singleTT (c : Char) : Option TT :=
-  if c == '(' then some .leftParen else if c == ')' then some .rightParen
-  else if c == '[' then some .leftBracket else if c == ']' then some .rightBracket
-  else if c == '{' then some .leftBrace else if c == '}' then some .rightBrace
-  else if c == ',' then some .comma else if c == '.' then some .dot
-  else if c == '-' then some .minus else if c == '+' then some .plus
-  else if c == '*' then some .star else if c == ';' then some .softSemi else none
+/-- the single-character tokens of `scan_token` -/
+def singleTable : List (Char × TT) :=
+  [('(', .leftParen), (')', .rightParen), ('[', .leftBracket), (']', .rightBracket), ('{', .leftBrace),
+   ('}', .rightBrace), (',', .comma), ('.', .dot), ('-', .minus), ('+', .plus), ('*', .star), (';', .softSemi)]
+
+def singleTT (c : Char) : Option TT := (singleTable.find? (fun e => e.1 == c)).map (·.2)
 
 def classify (cfg : LexCfg) (c : Char) : CClass :=
   match singleTT c with
@@ -214,6 +213,13 @@ def Step.prev (prev : Option TT) : Step → Option TT
   | .tok t _ => some t.tt
   | _ => prev
 
+/-- what `scan_tokens` does with the result of one `scan_token` -/
+def Step.push (st : Step) (r : List Token × List LexErr × Nat) : List Token × List LexErr × Nat :=
+  match st with
+  | .tok t _ => (t :: r.1, r.2.1, r.2.2)
+  | .skip _ => r
+  | .err e _ => (r.1, e :: r.2.1, r.2.2)
+
 /-- src: `scan_tokens` loop. Returns the tokens (without `Eof`), the errors, and the offset of the
 last `start` (the `Eof` token's offset). -/
 def scanLoop (cfg : LexCfg) (src : Str) (pos : Nat) (prev : Option TT) (lastStart : Nat) :
@@ -223,13 +229,10 @@ def scanLoop (cfg : LexCfg) (src : Str) (pos : Nat) (prev : Option TT) (lastStar
   | c :: cs =>
     have : (scanOne cfg prev pos c cs).rest.length < (c :: cs).length := by
       have := scanOne_progress cfg prev pos c cs; simp; omega
-    let st := scanOne cfg prev pos c cs
-    let pos' := pos + (ulen (c :: cs) - ulen st.rest)
-    let (ts, es, ls) := scanLoop cfg st.rest pos' (st.prev prev) pos
-    match st with
-    | .tok t _ => (t :: ts, es, ls)
-    | .skip _ => (ts, es, ls)
-    | .err e _ => (ts, e :: es, ls)
+    (scanOne cfg prev pos c cs).push
+      (scanLoop cfg (scanOne cfg prev pos c cs).rest
+        (pos + (ulen (c :: cs) - ulen (scanOne cfg prev pos c cs).rest))
+        ((scanOne cfg prev pos c cs).prev prev) pos)
 termination_by src.length
 
 def eofToken (off : Nat) : Token := ⟨.eof, "<EOF>".toList, .none, off, 0⟩
